@@ -53,6 +53,12 @@ type RunConfig struct {
 	NumWorkgroups [3]uint32
 	StepLimit     int64 // executed statements + evaluated expressions over all invocations (<= 0: 1<<26)
 	ReverseOrder  bool  // run the invocations of a workgroup in reverse order
+	// Lazy: an expression that no Emit of its function covers (and no statement
+	// produces) is evaluated on demand at each use instead of trapping with
+	// "use-before-emit".  This is the reading of backends that materialise
+	// expressions at their first use; it is only meant to keep executing modules
+	// with a KNOWN emit defect (see C13-1).
+	Lazy bool
 }
 
 // RunResult reports what happened.
@@ -78,6 +84,7 @@ type machine struct {
 	gexprs    []Val
 	gexprDone []uint8
 	loopEmits map[*ir.Statement][]ir.ExpressionHandle
+	unemitted map[*ir.Function][]bool
 	bufOf     []*[]byte // per global variable: bound buffer
 
 	aborted bool
@@ -85,7 +92,7 @@ type machine struct {
 
 // Run executes a compute entry point of m.
 func Run(m *ir.Module, cfg RunConfig) (res *RunResult, err error) {
-	mc := &machine{m: m, cfg: cfg, poison: map[string]bool{}, loopEmits: map[*ir.Statement][]ir.ExpressionHandle{}}
+	mc := &machine{m: m, cfg: cfg, poison: map[string]bool{}, loopEmits: map[*ir.Statement][]ir.ExpressionHandle{}, unemitted: map[*ir.Function][]bool{}}
 	mc.limit = cfg.StepLimit
 	if mc.limit <= 0 {
 		mc.limit = 1 << 26
